@@ -191,6 +191,39 @@ pub fn run(tier: Tier, seed: u64) -> i32 {
             }
         }
     });
+    // far beyond the enumerated scope: 300 signals, header in reverse order, every third omitted
+    let mut st = st;
+    {
+        let n = 300;
+        let sigs: Vec<Sig> = (0..n).map(|i| if i % 3 == 2 { Sig::out(&format!("S{i}"), 12) } else if i % 7 == 0 { Sig::bidir(&format!("S{i}"), 12, V::Num(i as i64)) } else { Sig::inp(&format!("S{i}"), 12, (i * 3) as i64) }).collect();
+        let mut header: Vec<String> = vec![];
+        for i in (0..n).rev() {
+            if i % 5 != 1 {
+                header.push(format!("S{i}"));
+            }
+            if i % 7 == 0 && i % 3 != 2 && i % 2 == 0 {
+                header.push(format!("S{i}_out"));
+            }
+        }
+        let ncol = header.len();
+        let rows: Vec<Stmt> = (0..4).map(|r| Stmt::Row((0..ncol).map(|j| Entry::Lit(((j * 5 + r * 1000 * (j % 2)) % 4000) as i64, Radix::Dec)).collect())).collect();
+        let prog = Program { header: header.clone(), body: rows };
+        let text = text(&prog);
+        let answer: Answer = sigs.iter().filter(|s| s.is_out()).map(|s| (s.name.clone(), V::Num(1))).collect();
+        let script = vec![Step::Ans(answer)];
+        let r = ref_run_fuel(&prog, &sigs, &script, 10_000, 100);
+        let mut opts = RunOpts::new(6);
+        opts.repeat_last = true;
+        let obs = run_dynamic(&text, &sigs, true, &script, &opts);
+        st.evals += 1;
+        st.nontrivial += 1;
+        st.witness("three_hundred_signals");
+        let proj = Proj { input_values: true, expected: true, output: false, checked_kind: true, lines: false, vars: false, verdicts: false };
+        let m = run_mismatch(&r, &obs, proj, None).map(|x| x.1).or_else(|| changed_rule(&obs, &header));
+        if let Some(m) = m {
+            st.violation(&format!("large scale: {}", classify(&m)), 1 << 60, format!("300 signals, header of {ncol} columns in reverse order\nfirst difference at {m}"), || dyn_replay(&text, &sigs, true, &script, &opts, ref_items_brief(&r), &obs, &m));
+        }
+    }
     let meta = CheckMeta {
         id: "C06",
         tier,
@@ -207,6 +240,7 @@ pub fn run(tier: Tier, seed: u64) -> i32 {
             "bidirectional_pair_partial",
             "header_order_differs_from_signal_list_order",
             "driver_fault_then_continue",
+            "three_hundred_signals",
             "virtual_signal_with_a_header_column",
             "virtual_signal_without_a_header_column",
         ],
